@@ -16,9 +16,10 @@ META = {
             "(page-order pass, dense pass, traverse_objects, bookmark table renamed through the whole map) and checks the result against the "
             "declarative statement: a functional, injective renaming found by lock-step traversal from the two trailers "
             "under which trailer, reachable objects, page sequence and bookmark targets are the originals renamed, numbers "
-            "consecutive from start, max_id the last one, dangling references still dangling. The model as the code is (since "
-            "the fix: commits for bookmark.chain, dangling.capture, dangling.capture.pageorder, panic.empty0) has no "
-            "counter-example; with those defects seeded back into the model the only counter-examples are exactly their four "
+            "consecutive from start, max_id the last one, dangling references still dangling. The model as the code is (after "
+            "seven fix: commits) has no counter-example on any layout, including a page listed twice in Kids, two live objects "
+            "under one object number and bookmarks on ids that name no object; with the seven repaired defects seeded back "
+            "into the model (two control configurations) the only counter-examples are exactly their seven "
             "signatures (negative control of the declarative layer). Every generated "
             "document is then renumbered by lopdf and the before/after pair judged by TLC with the declarative layer only; "
             "so are before/after pairs of seeded random reference graphs of up to 16 objects and of two deterministic families "
@@ -37,7 +38,8 @@ META = {
 MC_ACTIONS = ["Build1", "Build2", "Build3", "BeginS", "PagePairS", "PageFinishS", "DensePlanS", "DensePairS",
               "DenseFinishS"]
 MC_ACTIONS_REPAIRED = [a for a in MC_ACTIONS] + ["DenseFinishRepaired"]   # the code as it is (saturating max_id)
-FORMER_FINDINGS = ["bookmark.chain", "dangling.capture", "dangling.capture.pageorder", "panic.empty0"]
+FORMER_FINDINGS = ["bookmark.chain", "dangling.capture", "dangling.capture.pageorder", "panic.empty0",
+                   "pageorder.dupkids", "pageorder.numclash", "bookmark.dangling.capture"]
 
 
 def require_actions(cases, actions):
@@ -286,25 +288,32 @@ def run(tier):
     require_actions(cases, MC_ACTIONS_REPAIRED)
     if not any(c["needs"] for c in cases) or not any(not c["needs"] for c in cases):
         raise vlib.ToolError("vacuous: the generated cases do not both take and skip the page-order pass")
-    # (M') negative control of the declarative layer: the four repaired defects seeded back into the design
-    # (switches on).  The counter-examples are exactly their signatures (cfg Allowed), each of them occurs, and
-    # the variant without deviations is acceptable on every one of these documents (RepairedRefines).
-    cfg2 = "MC_Renumber_quick_seeded.cfg"
-    r2 = tlc("MC_Renumber.tla", cfg2, workers=workers, timeout=3000, env={"C10_PICK": 0}, xmx="4g",
-             name=os.path.splitext(cfg2)[0])
-    cases2 = r2.tagged("REPLAY")
-    if not cases2:
-        raise vlib.ToolError("seeded run completed no case")
-    seeded = {}
-    for c in cases2:
-        for tag in c["v"].split("+"):
-            seeded[tag] = seeded.get(tag, 0) + 1
-    missing = [t for t in FORMER_FINDINGS if not seeded.get(t)]
-    if missing or seeded.get("ok", 0) < len(cases2) // 2:
-        raise vlib.ToolError("seeded design deviations not detected by the model: %s (verdicts %s)" % (missing, seeded))
-    require_actions(cases2, MC_ACTIONS)
-    chk.extra["model_verdicts_defects_seeded"] = seeded
-    chk.add_tlc(r2)
+    # (M') negative controls of the declarative layer: the seven repaired defects seeded back into the design
+    # (switches on), each on layouts that can show it.  The counter-examples are exactly their signatures
+    # (cfg Allowed, checked per clause tag by the invariant Refines), each of them occurs, no other tag occurs,
+    # and the variant without deviations is acceptable on every one of these documents (RepairedRefines).
+    seeded_all = {}
+    for cfg2, want, acts in (("MC_Renumber_quick_seeded.cfg", FORMER_FINDINGS[:4], MC_ACTIONS),
+                             ("MC_Renumber_quick_seeded2.cfg", FORMER_FINDINGS[4:], MC_ACTIONS_REPAIRED)):
+        r2 = tlc("MC_Renumber.tla", cfg2, workers=workers, timeout=3000, env={"C10_PICK": 0}, xmx="4g",
+                 name=os.path.splitext(cfg2)[0])
+        cases2 = r2.tagged("REPLAY")
+        if not cases2:
+            raise vlib.ToolError("seeded run %s completed no case" % cfg2)
+        seeded = {}
+        for c in cases2:
+            for tag in c["v"].split("+"):
+                seeded[tag] = seeded.get(tag, 0) + 1
+        missing = [t for t in want if not seeded.get(t)]
+        extra = sorted(set(seeded) - set(want) - {"ok"})
+        if missing or extra or seeded.get("ok", 0) < len(cases2) // 2:
+            raise vlib.ToolError("seeded design deviations (%s): not detected %s, unexpected %s (verdicts %s)" % (
+                cfg2, missing, extra, seeded))
+        require_actions(cases2, acts)
+        for k, v in seeded.items():
+            seeded_all[k] = seeded_all.get(k, 0) + v
+        chk.add_tlc(r2)
+    chk.extra["model_verdicts_defects_seeded"] = seeded_all
     chk.exhaustive = True
     # (G) every generated case replayed into lopdf, the before/after pair judged by the declarative layer
     cin, cout = os.path.join(w, "gen.ndjson"), os.path.join(w, "gen.out.ndjson")
@@ -345,7 +354,7 @@ def run(tier):
         if "fam" in rec:
             fams[rec["fam"]] = fams.get(rec["fam"], 0) + 1
     if len(recs) - sum(fams.values()) != n or fams.get("deep", 0) < 90 or fams.get("bookmarks", 0) < 56 \
-            or fams.get("pageorder", 0) < 42:
+            or fams.get("pageorder", 0) < 48:
         raise vlib.ToolError("recorder produced %d records (%d random wanted), families %s" % (len(recs), n, fams))
     chk.extra["recorded_families"] = fams
     seen2 = set()
